@@ -889,6 +889,83 @@ def run_cases(rep: Report, cases, deadline, with_model, stream):
     rep.streams[stream] = {"cases": n_done, "skipped_precondition": n_skip, "problems": n_bad}
 
 
+
+# ----------------------------------------------------------------------------- extra streams (real vs real)
+
+def extra_case(kind: str, name: str, seed: int) -> tuple[bool, str]:
+    """one deterministic extra case; returns (holds, description).
+    kind "fine-scale": float64 scores 0.5 + j·2^-40 (distinct, far below float32 resolution) against the exact zoom
+        x ↦ (x − 0.5)·2^30, a strictly increasing map — a rank metric that rounds its scores to float32 first collapses the
+        former to ties but not the latter.
+    kind "mixed-weight-scale": a class metric whose updates alternate tensor weights and plain float / int weights; every
+        weight is then multiplied by c — a per-update scalar weight that is silently dropped (it cancels within ONE call)
+        breaks the invariance only across accumulated updates."""
+    g = torch.Generator().manual_seed(seed)
+    if kind == "fine-scale":
+        n, C = 400, 8
+        j = torch.stack([torch.randperm(64, generator=g)[:C] for _ in range(n)]).to(torch.float64)
+        x = 0.5 + j * 2.0 ** -40
+        z = (x - 0.5) * 2.0 ** 30
+        assert bool(((x[:, :, None] < x[:, None, :]) == (z[:, :, None] < z[:, None, :])).all())
+        tgt = torch.randint(0, C, (n,), generator=g)
+        y01 = torch.randint(0, 2, (n,), generator=g)
+        fns = {"hit_rate": lambda s: F.hit_rate(s, tgt, k=3), "reciprocal_rank": lambda s: F.reciprocal_rank(s, tgt),
+               "HitRate": lambda s: M.HitRate(k=2).update(s, tgt).compute(), "ReciprocalRank": lambda s: M.ReciprocalRank(k=4).update(s, tgt).compute(),
+               "multiclass_accuracy[k=3]": lambda s: F.multiclass_accuracy(s, tgt, k=3),
+               "binary_auroc": lambda s: F.binary_auroc(s[:, 0], y01), "binary_auprc": lambda s: F.binary_auprc(s[:, 0], y01),
+               "retrieval_precision": lambda s: F.retrieval_precision(s[:, 0], y01, k=50)}
+        a, b = fns[name](x), fns[name](z)
+        ok = torch.equal(a.to(torch.float64), b.to(torch.float64))
+        return ok, f"{name} on float64 scores 0.5 + j·2^-40 gives {a.reshape(-1)[:6].tolist()}…, on their zoom (x−0.5)·2^30 {b.reshape(-1)[:6].tolist()}… (mean {float(a.double().mean()):.6f} vs {float(b.double().mean()):.6f})"
+    if kind == "mixed-weight-scale":
+        T = 2 if name.endswith("[tasks=2]") else 1
+        base = name.split("[")[0]
+        shape = (300,) if T == 1 else (T, 300)
+        ups = []
+        for i in range(4):
+            x = torch.randint(1, 8, shape, generator=g).float() / 8
+            y = torch.randint(0, 2, shape, generator=g).float()
+            w = (torch.randint(1, 5, shape, generator=g).float()) if i % 2 == 0 else [2.0, 3][i // 2]
+            ups.append((x, y, w))
+        def run(c):
+            if base in ("WeightedCalibration", "WindowedWeightedCalibration"):
+                m = M.WeightedCalibration(num_tasks=T) if base == "WeightedCalibration" else M.WindowedWeightedCalibration(num_tasks=T, max_num_updates=3)
+                for x, y, w in ups:
+                    m.update(x, y, w * c)
+            else:
+                m = M.ClickThroughRate(num_tasks=T) if base == "ClickThroughRate" else M.WindowedClickThroughRate(num_tasks=T, max_num_updates=3)
+                for x, y, w in ups:
+                    m.update(y.long(), w * c)
+            r = m.compute()
+            return torch.cat([t.reshape(-1).double() for t in (r if isinstance(r, tuple) else (r,))])
+        a = run(1)
+        for c in (4, 0.25, 2 ** 10):
+            b = run(c)
+            if not torch.allclose(a, b, rtol=1e-9, atol=0):
+                return False, f"{name}: four updates with weights (tensor, 2.0, tensor, 3) give {a.tolist()}, all weights × {c} give {b.tolist()}"
+        return True, f"{name}: invariant under weight scaling"
+    raise ValueError(kind)
+
+
+EXTRA = ([("fine-scale", n) for n in ("hit_rate", "reciprocal_rank", "HitRate", "ReciprocalRank", "multiclass_accuracy[k=3]", "binary_auroc", "binary_auprc", "retrieval_precision")]
+         + [("mixed-weight-scale", n) for n in ("WeightedCalibration", "WeightedCalibration[tasks=2]", "WindowedWeightedCalibration", "ClickThroughRate", "ClickThroughRate[tasks=2]", "WindowedClickThroughRate")])
+
+
+def extra_streams(rep: Report):
+    for kind, name in EXTRA:
+        for r in range(2 if rep.tier == "quick" else 8):
+            seed = rep.seed * 7919 + 31 * r + 5
+            try:
+                ok, what = extra_case(kind, name, seed)
+            except Exception as e:  # noqa: BLE001
+                rep.broke(f"harness-exception:{kind}:{name}", repr(e)[:300], {"case": {"extra": kind, "name": name, "seed": seed}})
+                continue
+            rep.case(nontrivial_key=("extra", kind, name, seed), sample=None)
+            rep.count(f"extra:{kind}")
+            if not ok:
+                rep.violation(f"C17|{name}|{kind}|relation-broken", what, {"case": {"extra": kind, "name": name, "seed": seed}})
+                break
+
 def run(rep: Report):
     thorough = rep.tier == "thorough"
     t0 = time.time()
@@ -904,6 +981,7 @@ def run(rep: Report):
     sizes = (2000, 5000, 10000, 20000) if thorough else (2000, 3000, 5000)
     cases = gen_cases(rng, sizes, 20 if thorough else 3)
     run_cases(rep, cases, t0 + budget(rep.tier, 75, 800), False, "real")
+    extra_streams(rep)
 
 
 def search(rep: Report):
@@ -915,5 +993,10 @@ def search(rep: Report):
 
 def replay(payload) -> bool:
     case = payload["replay"]["case"] if "replay" in payload else payload["case"]
+    if "extra" in case:
+        ok, what = extra_case(case["extra"], case["name"], case["seed"])
+        if not ok:
+            print("replay:", what[:500])
+        return ok
     res = eval_case(case, with_model=False)
     return not any(level == "real" for level, _, _ in res["problems"])
